@@ -19,6 +19,22 @@ Fixpoint nodup_names (l : list N) : bool :=
   | x :: l' => negb (mem x l') && nodup_names l'
   end.
 
+(* ---------------------------------------------------------------- aliases
+   An expression whose value is a record is a variable (`b = a` with [a] a record-valued field), or
+   a conditional one of whose branches is: its value is the very record of that field.  [alias_tm]
+   finds the field, given the numeric meaning of the variables (for the conditions). *)
+Fixpoint alias_tm (look : N -> outcome) (t : tm) : option N :=
+  match t with
+  | Var x => Some x
+  | IfLe a b t e =>
+      match arith2 (fun x y => if (x <=? y)%Z then Ok 1 else Ok 0) (eval_tm look a) (eval_tm look b) with
+      | Ok 1%Z => alias_tm look t
+      | Ok 0%Z => alias_tm look e
+      | _ => None
+      end
+  | _ => None
+  end.
+
 (* ---------------------------------------------------------------- mechanism *)
 (* what a closure of the inner literal finds for a variable of the enclosing record: the field of
    the enclosing instance, if the dependencies of the thunk let it through *)
@@ -26,20 +42,25 @@ Definition outer_I (F : nat) (st : state) (ro : nat) (filt : list N) (x : N) : o
   if mem x filt then Some (var_out (ifield F st ro x)) else None.
 
 (* evaluating the body of the thunk of a record-valued field to a record instance; [st0]: the state
-   in which the enclosing instance is read; None: not a record (or a literal the parser would
-   not produce: duplicate names), or a panic *)
-Fixpoint inst_body (c : cfg) (F : nat) (st0 : state) (ro : nat) (filt : list N) (st : state) (b : body)
-  : option (state * nat) :=
+   in which the enclosing instance is read; [alias]: how a field of the enclosing instance is read as
+   a record; None: not a record (or a literal the parser would not produce: duplicate names), or a
+   panic *)
+Fixpoint inst_body (c : cfg) (F : nat) (st0 : state) (ro : nat) (alias : state -> N -> option (state * nat))
+  (filt : list N) (st : state) (b : body) : option (state * nat) :=
   match b with
   | BSrc (SSub l) =>
       if nodup_names (map fst l)
       then eval_literal c st (lift_lit (subst_ilit (outer_I F st0 ro filt) l))
       else None
-  | BSrc (STm _) => None
+  | BSrc (STm t) =>
+      match alias_tm (fun x => if mem x filt then var_out (ifield F st0 ro x) else Err UnboundId) t with
+      | Some x => if mem x filt then alias st x else None
+      | None => None
+      end
   | BMerge b1 d1 b2 d2 =>
-      match inst_body c F st0 ro (filter (fun x => mem x filt) d1) st b1 with
+      match inst_body c F st0 ro alias (filter (fun x => mem x filt) d1) st b1 with
       | Some (st1, r1) =>
-          match inst_body c F st0 ro (filter (fun x => mem x filt) d2) st1 b2 with
+          match inst_body c F st0 ro alias (filter (fun x => mem x filt) d2) st1 b2 with
           | Some (st2, r2) => merge c st2 r1 r2
           | None => None
           end
@@ -48,49 +69,76 @@ Fixpoint inst_body (c : cfg) (F : nat) (st0 : state) (ro : nat) (filt : list N) 
   | BInd _ => None
   end.
 
-(* field [k] of record instance [ro], read as a record *)
-Definition inst (c : cfg) (F : nat) (st : state) (ro : nat) (k : N) : option (state * nat) :=
-  match nth_error (recs st) ro with
-  | None => None
-  | Some r =>
-      match ilookup k r with
+(* field [k] of record instance [ro], read as a record, in state [st] (an extension of the state
+   [st0] in which the numeric view is taken); the fuel bounds the chain of aliases *)
+Fixpoint inst_at (fuel : nat) (c : cfg) (F : nat) (st0 : state) (ro : nat) (st : state) (k : N) : option (state * nat) :=
+  match fuel with
+  | O => None
+  | S n =>
+      match nth_error (recs st0) ro with
       | None => None
-      | Some f =>
-          match ival f with
+      | Some r =>
+          match ilookup k r with
           | None => None
-          | Some tid =>
-              match nth_error (thunks st) tid with
-              | Some (Std b) => inst_body c F st ro [] st b
-              | Some (Rev o (Some d) (Some ro')) => inst_body c F st ro' d st o
-              | Some (Rev o None (Some ro')) => inst_body c F st ro' (ikeys r) st o
-              | _ => None
+          | Some f =>
+              match ifield F st0 ro k with
+              | IsRec =>
+                  match ival f with
+                  | None => None
+                  | Some tid =>
+                      match nth_error (thunks st0) tid with
+                      | Some (Std b) => inst_body c F st0 ro (fun st' x => inst_at n c F st0 ro st' x) [] st b
+                      | Some (Rev o (Some d) (Some ro')) => inst_body c F st0 ro' (fun st' x => inst_at n c F st0 ro' st' x) d st o
+                      | Some (Rev o None (Some ro')) => inst_body c F st0 ro' (fun st' x => inst_at n c F st0 ro' st' x) (ikeys r) st o
+                      | _ => None
+                      end
+                  end
+              | _ => None               (* not a record, or its contracts fail *)
               end
           end
       end
   end.
+
+Definition inst (c : cfg) (F : nat) (st : state) (ro : nat) (k : N) : option (state * nat) :=
+  inst_at F c F st ro st k.
 
 (* ---------------------------------------------------------------- specification *)
 Definition outer_S (F : nat) (R : srec) (scope : list N) (x : N) : option outcome :=
   if mem x scope then Some (var_out (sfield F R x)) else None.
 
 (* the record a definition denotes inside the final record [R]: the literal with the variables of
-   the enclosing record bound, late, to the fields of [R]; a piecewise definition is the merge *)
-Fixpoint sinst_body (F : nat) (R : srec) (b : sbody) : option srec :=
+   the enclosing record bound, late, to the fields of [R]; a piecewise definition is the merge; an
+   alias is the record of the field it names *)
+Fixpoint sinst_body (F : nat) (R : srec) (alias : N -> option srec) (b : sbody) : option srec :=
   match b with
   | SLeaf scope (SSub l) =>
       if nodup_names (map fst l)
       then Some (sden_lit (lift_lit (subst_ilit (outer_S F R scope) l)))
       else None
-  | SLeaf _ (STm _) => None
+  | SLeaf scope (STm t) =>
+      match alias_tm (fun x => if mem x scope then var_out (sfield F R x) else Err UnboundId) t with
+      | Some x => if mem x scope then alias x else None
+      | None => None
+      end
   | SMerge2 a b =>
-      match sinst_body F R a, sinst_body F R b with
+      match sinst_body F R alias a, sinst_body F R alias b with
       | Some r1, Some r2 => Some (smerge r1 r2)
       | _, _ => None
       end
   end.
 
-Definition sinst (F : nat) (R : srec) (k : N) : option srec :=
-  match slookup k R with
-  | None => None
-  | Some f => match sval f with None => None | Some b => sinst_body F R b end
+Fixpoint sinst_at (fuel : nat) (F : nat) (R : srec) (k : N) : option srec :=
+  match fuel with
+  | O => None
+  | S n =>
+      match slookup k R with
+      | None => None
+      | Some f =>
+          match sfield F R k with
+          | IsRec => match sval f with None => None | Some b => sinst_body F R (sinst_at n F R) b end
+          | _ => None
+          end
+      end
   end.
+
+Definition sinst (F : nat) (R : srec) (k : N) : option srec := sinst_at F F R k.
